@@ -138,6 +138,66 @@ def coq_walk(datas, workers=12, shard_bytes=120000):
     return out
 
 
+# ----------------------------------------------------------------------------- the Coq walker as the judge (files tools/h5spec.py cannot decode)
+
+JHEADER = "From HV Require Import Base.Prelude Model.RefWalkTie Model.WalkJudgeTie.\n"
+
+
+def parse_judge(l):
+    """walkj_obs -> dict (see Model/WalkJudgeTie.v)"""
+    if l[0] == 0:
+        return dict(accept=False, reason=l[1])
+    code = l[0]
+    d = dict(accept=True, walk_ok=bool(code & 4), disjoint=bool(code & 8))
+    p = [1]
+    def take():
+        v = l[p[0]]
+        p[0] += 1
+        return v
+    def take_bytes():
+        n = take()
+        b = bytes(l[p[0]:p[0] + n])
+        p[0] += n
+        return b
+    d["version"], d["eof"] = take(), take()
+    d["extents"] = sorted((take(), take(), take()) for _ in range(take()))
+    d["tags"] = {take() for _ in range(take())}
+    d["tree"] = []
+    for _ in range(take()):
+        o = dict(addr=take(), kind=take(), cls=take(), size=take(), bits=take(), space=take(), layout=take())
+        o["dims"] = [take() for _ in range(take())]
+        o["path"] = take_bytes()
+        o["attrs"] = [take_bytes() for _ in range(take())]
+        o["links"] = [(take(), take_bytes()) for _ in range(take())]
+        o["targets"] = [take() for _ in range(take())]
+        d["tree"].append(o)
+    if p[0] != len(l):
+        raise RuntimeError("walkj_obs: %d numbers left over" % (len(l) - p[0]))
+    return d
+
+
+def _judge_part(args):
+    from props import c06walk
+    k, datas = args
+    v = [JHEADER, "Open Scope string_scope.\nOpen Scope N_scope.\n"]
+    v.append("Definition fs : list (list piece) := [%s].\n" % ";\n".join(c06walk.pieces_literal(d)[0] for d in datas))
+    v.append("Definition r := Eval vm_compute in map walkj_pieces fs.\nPrint r.\n")
+    out = vlib.coq_eval("".join(v), "c05judge_%d" % k)
+    got = parse_nested(out, "r")
+    if len(got) != len(datas):
+        raise RuntimeError("c05judge: %d results for %d files:\n%s" % (len(got), len(datas), out[-1500:]))
+    return got
+
+
+def coq_judge(datas, workers=8):
+    """tolerant Coq walk of complete files (one coqc process per file: a dense group's heap block alone is 512 KiB) -> parsed walkj_obs"""
+    if not datas:
+        return []
+    with cf.ThreadPoolExecutor(workers) as ex:
+        res = list(ex.map(_judge_part, [(k, [d]) for k, d in enumerate(datas)]))
+    return [parse_judge(r[0]) for r in res]
+
+
 def py_extents_ok(fs, eof, l):
     s = sorted((a, b) for a, b, _ in l)
     if any(not (a < b <= fs and b <= eof) for a, b in s):
